@@ -184,6 +184,7 @@ type vfSM struct {
 
 type vfSMStats struct {
 	evictions, rejections, drops, sweepsWithEvict, dels, clears int
+	closedWithParkedSender                                      int
 	realigned                                                   int // steps at which the reference FIFO had to be re-aligned with the cache's write buffer
 	clearBufferedNew, clearBufferedOther                        bool
 	admissionsAfterEvict                                        int
